@@ -8,6 +8,7 @@ import (
 
 	"github.com/evolbioinfo/goalign/align"
 	"github.com/evolbioinfo/goalign/stats"
+	"github.com/evolbioinfo/goalign/verifhook"
 )
 
 const (
@@ -148,6 +149,8 @@ func DistMatrix(al align.Alignment, weights []float64, model DistModel, range1Mi
 	var perr, werr error
 	go func() {
 		defer close(distchan)
+		defer verifhook.At("dm.p.close", 0, 0)
+		verifhook.At("dm.p.start", 0, 0)
 		var seq1, seq2 []uint8
 		if range1Min >= 0 && range1Max >= 0 && range2Min >= 0 && range2Max >= 0 {
 			if range1Max >= al.NbSequences() {
@@ -155,6 +158,7 @@ func DistMatrix(al align.Alignment, weights []float64, model DistModel, range1Mi
 			}
 			if range1Min > range1Max {
 				perr = fmt.Errorf("range 1 min is greater than range 1 max")
+				verifhook.At("dm.p.err", -1, -1)
 				return
 			}
 			if range2Max >= al.NbSequences() {
@@ -162,18 +166,22 @@ func DistMatrix(al align.Alignment, weights []float64, model DistModel, range1Mi
 			}
 			if range2Min > range2Max {
 				perr = fmt.Errorf("range 2 min is greater than range 2 max")
+				verifhook.At("dm.p.err", -1, -1)
 				return
 			}
 
 			for i := range1Min; i <= range1Max; i++ {
 				if seq1, perr = model.Sequence(i); perr != nil {
+					verifhook.At("dm.p.err", i, -1)
 					return
 				}
 				for j := range2Min; j <= range2Max; j++ {
 					if j != i {
 						if seq2, perr = model.Sequence(j); perr != nil {
+							verifhook.At("dm.p.err", i, j)
 							return
 						}
+						verifhook.At("dm.p.send", i, j)
 						distchan <- seqpairdist{i, j, seq1, seq2, model, weights}
 					}
 				}
@@ -181,12 +189,15 @@ func DistMatrix(al align.Alignment, weights []float64, model DistModel, range1Mi
 		} else {
 			for i := 0; i < al.NbSequences(); i++ {
 				if seq1, perr = model.Sequence(i); perr != nil {
+					verifhook.At("dm.p.err", i, -1)
 					return
 				}
 				for j := i + 1; j < al.NbSequences(); j++ {
 					if seq2, perr = model.Sequence(j); perr != nil {
+						verifhook.At("dm.p.err", i, j)
 						return
 					}
+					verifhook.At("dm.p.send", i, j)
 					distchan <- seqpairdist{i, j, seq1, seq2, model, weights}
 				}
 			}
@@ -199,7 +210,10 @@ func DistMatrix(al align.Alignment, weights []float64, model DistModel, range1Mi
 		wg.Add(1)
 		go func() {
 			defer wg.Done()
+			defer verifhook.At("dm.w.done", 0, 0)
+			verifhook.At("dm.w.start", 0, 0)
 			for sp := range distchan {
+				verifhook.At("dm.w.recv", sp.i, sp.j)
 				if sp.i == sp.j {
 					outmatrix[sp.i][sp.i] = 0
 				} else {
@@ -211,12 +225,15 @@ func DistMatrix(al align.Alignment, weights []float64, model DistModel, range1Mi
 						if werr == nil {
 							werr = derr
 						}
+						verifhook.At("dm.w.err", sp.i, sp.j)
 						mux.Unlock()
 						continue
 					}
 					outmatrix[sp.i][sp.j] = d
 					outmatrix[sp.j][sp.i] = outmatrix[sp.i][sp.j]
+					verifhook.At("dm.w.dist", sp.i, sp.j)
 					mux.Lock()
+					verifhook.At("dm.w.lock", sp.i, sp.j)
 					if outmatrix[sp.i][sp.j] < 0 || outmatrix[sp.i][sp.j] == math.Inf(1) || outmatrix[sp.i][sp.j] > NT_DIST_OVER {
 						uncompute = append(uncompute, seqpairdist{sp.i, sp.j, nil, nil, nil, nil})
 					} else if outmatrix[sp.i][sp.j] > max {
@@ -228,12 +245,15 @@ func DistMatrix(al align.Alignment, weights []float64, model DistModel, range1Mi
 		}()
 	}
 	wg.Wait()
+	verifhook.At("dm.m.wait", 0, 0)
 	if perr != nil {
 		err = perr
+		verifhook.At("dm.m.ret", 1, 0)
 		return
 	}
 	if werr != nil {
 		err = werr
+		verifhook.At("dm.m.ret", 1, 0)
 		return
 	}
 
@@ -248,6 +268,7 @@ func DistMatrix(al align.Alignment, weights []float64, model DistModel, range1Mi
 		outmatrix[sp.j][sp.i] = subst
 	}
 
+	verifhook.At("dm.m.ret", 0, 0)
 	return
 }
 
